@@ -22,6 +22,7 @@ type c05 struct {
 	fStop, fAdd, fRemove, fSnapshot         FieldID
 	fNext, fPrev, fSchedule, fWrapped, fJob FieldID
 	fID                                     FieldID
+	fLocation                               FieldID
 	lockID                                  string
 
 	sched     *ssa.Function          // the scheduler loop (callee of the go statement in Start)
@@ -31,6 +32,7 @@ type c05 struct {
 	addrTaken map[*ssa.Function]bool
 
 	clockMemo   map[ssa.Value]int // 0 unknown, 1 in progress, 2 yes, 3 no
+	clockDepth  int
 	storeMemo   map[string]map[*ssa.Function]bool
 	starters    map[*ssa.Function]int // function -> index of the Job parameter it starts in a goroutine
 	actMemo     map[string]uint64
@@ -77,6 +79,7 @@ func newC05Base(p *Prog, r *Report, pkgPath, rel string, cronFields []string) *c
 	a.fStop, a.fAdd, a.fRemove, a.fSnapshot = FieldID{ct, "stop"}, FieldID{ct, "add"}, FieldID{ct, "remove"}, FieldID{ct, "snapshot"}
 	a.fNext, a.fPrev, a.fSchedule, a.fWrapped, a.fJob, a.fID = FieldID{et, "Next"}, FieldID{et, "Prev"}, FieldID{et, "Schedule"}, FieldID{et, "WrappedJob"}, FieldID{et, "Job"}, FieldID{et, "ID"}
 	a.lockID = ct + ".runningMu"
+	a.fLocation = FieldID{ct, "location"}
 	a.funcs = p.FuncsOfPkg(rel)
 
 	// call sites / address-taken (within the whole module)
@@ -121,7 +124,7 @@ func newC05Base(p *Prog, r *Report, pkgPath, rel string, cronFields []string) *c
 
 func newC05(c *Ctx) *c05 {
 	p := c.P
-	a := newC05Base(p, c.R, p.ModPath+"/cron", "cron", []string{"entries", "running", "runningMu", "jobWaiter", "stop", "add", "remove", "snapshot"})
+	a := newC05Base(p, c.R, p.ModPath+"/cron", "cron", []string{"entries", "running", "runningMu", "jobWaiter", "stop", "add", "remove", "snapshot", "location"})
 	a.c = c
 	a.e = c.Locks()
 	// scheduler function: what Start spawns
@@ -285,6 +288,12 @@ func (a *c05) timerChan(v ssa.Value, seen map[ssa.Value]bool) bool {
 // available: a reading of the clock, a value delivered by a timer, or a
 // location-only transform / phi of such.
 func (a *c05) clockDerived(v ssa.Value) bool {
+	if a.clockDepth == 0 {
+		// fresh memo per top-level query: the coinductive phi assumption is only valid inside one query
+		a.clockMemo = map[ssa.Value]int{}
+	}
+	a.clockDepth++
+	defer func() { a.clockDepth-- }()
 	switch a.clockMemo[v] {
 	case 1, 2:
 		return true // coinductive for phi cycles
